@@ -89,8 +89,10 @@ def scenarios(rng, tier):
             c["ops"] = [("commit", "l", [])]
             c["cmd"] = ["stage", "remove", "t0.yaml", "s.yaml", "t1.yaml"][:rng.choice([3, 4])]
         elif kind == "big-link":
-            c["cmd"] = ["commit"]
-            c["targets"] = []
+            # the stages are named: without targets dud visits them in Go map order, and the trace comparison is about one order
+            order = [b"s1.yaml", b"s2.yaml"] if rng.random() < 0.5 else [b"s2.yaml", b"s1.yaml"]
+            c["cmd"] = ["commit"] + [t.decode() for t in order]
+            c["targets"] = order
         elif kind == "stage-symlink":
             c["symlink_stage"] = True            # s.yaml -> shared/s.yaml
             c["no_trace"] = True
